@@ -3,3 +3,7 @@ import Theorems.C02
 #print axioms C02.nearest_decoder_corrects
 #print axioms C02.ml_is_nearest
 #print axioms C02.ml_corrects
+#print axioms C02.syndrome_decoder_corrects
+#print axioms C02.syndrome_table_entry
+#print axioms C02.syndrome_decoder_instances
+#print axioms C02.hamming_inverse_corrects
